@@ -43,6 +43,13 @@ def history(ctx, nops):
             ops.append(["call", ident, common.enc_env(env)])
             if rng.random() < 0.3:
                 ops.append(["call", ident, common.enc_env(env)])      # repeated call
+            if rng.random() < 0.3 and prog.splitters:
+                # the same call with a splitter value that compares equal in Python but prints differently
+                sp = prog.splitters[0]
+                if sp not in prog.cond_fields():
+                    for v in rng.sample([1, 1.0, True, 0, 0.0, False, 7, 7.0], 3):
+                        e2 = dict(env); e2[sp] = v
+                        ops.append(["call", ident, common.enc_env(e2)])
     return ops
 
 
@@ -70,7 +77,7 @@ def run(ctx, with_model=True):
                {"LANG": "en_US.ISO-8859-1", "LC_ALL": "en_US.ISO-8859-1", "PYTHONIOENCODING": "latin-1"}]
     cwds = ["/tmp", "/", common.VERIF]
     for i in range(nchild):
-        e = {"PYTHONHASHSEED": seeds[i % len(seeds)], "C01_IMPORT_ORDER": "ab"[i % 2]}
+        e = {"PYTHONHASHSEED": seeds[i % len(seeds)], "C01_IMPORT_ORDER": "ab"[i % 2], "C01_FRESH": "1" if i == 1 else "0"}
         e.update(locales[(i // 2) % len(locales)])
         matrix.append((e, cwds[i % len(cwds)]))
     from concurrent.futures import ThreadPoolExecutor
@@ -86,6 +93,13 @@ def run(ctx, with_model=True):
         ctx.case((k, json.dumps(op)[:200]), op[0] == "call", sample=op if k < 3 else None)
         ctx.count("op:" + op[0])
     base = transcripts[0]
+    # the child that also asked a brand-new evaluator at every call
+    for k, r in enumerate(transcripts[1] if isinstance(transcripts[1], list) else []):
+        if isinstance(r, dict) and "used" in r:
+            ctx.violation(f"a used evaluator and a fresh evaluator of the same text disagree at step {k} ({json.dumps(ops[k])[:120]}): "
+                          f"{json.dumps(r['used'])[:70]} vs {json.dumps(r['fresh'])[:70]}",
+                          {"history": ops[:k + 1], "step": k, "used": r["used"], "fresh": r["fresh"]})
+            transcripts[1][k] = r["used"]
     for (e, cwd), t in zip(matrix, transcripts):
         ctx.count("children")
         if isinstance(t, dict) and "crash" in t:
